@@ -1506,6 +1506,7 @@ func runLimits(t *testing.T, ksc KScenario, res *KResult) {
 	if !spoken {
 		switch {
 		case reached:
+			res.Nontrivial = true
 			if sc.TPs != nil {
 				res.Probe("reach:" + sc.Push + sc.Reader + ":derived")
 			} else {
